@@ -348,10 +348,9 @@ impl<F: Field> Circuit<F> {
                     // avoid double-creation.  This happens in e.g. BoolCheck where a = c = out.
                     let a_defined = (a.0 as usize) < defined.len() && defined[a.0 as usize];
                     let a_aliased_by_out = !out_already_defined && a.0 == out.0;
-                    let a_state: F = if a_defined {
-                        F::ONE // reader
-                    } else if (private_input_wids.contains(&a.0) || hint_output_wids.contains(&a.0))
-                        && !a_aliased_by_out
+                    let a_state: F = if a_defined || a_aliased_by_out {
+                        F::ONE // reader (of an earlier creator, or of the slot this row creates via `out`)
+                    } else if private_input_wids.contains(&a.0) || hint_output_wids.contains(&a.0)
                     {
                         F::TWO // creator (private input or hint output)
                     } else {
@@ -365,11 +364,10 @@ impl<F: Field> Circuit<F> {
                     let (c_wid, c_state) = c.as_ref().map_or((WitnessId(0), F::ZERO), |w| {
                         let c_defined = (w.0 as usize) < defined.len() && defined[w.0 as usize];
                         let c_aliased_by_out = !out_already_defined && w.0 == out.0;
-                        let c_state = if c_defined {
-                            F::ONE // reader
-                        } else if (private_input_wids.contains(&w.0)
-                            || hint_output_wids.contains(&w.0))
-                            && !c_aliased_by_out
+                        let c_state = if c_defined || c_aliased_by_out {
+                            F::ONE // reader (of an earlier creator, or of the slot this row creates via `out`)
+                        } else if private_input_wids.contains(&w.0)
+                            || hint_output_wids.contains(&w.0)
                         {
                             F::TWO // creator (private input or hint output)
                         } else {
